@@ -309,7 +309,7 @@ def dump_xml_meta_odm(segment, data, **kwargs):
     cospar_id.text = kwargs.get("cospar_id", getattr(data, "cospar_id", "N/A"))
 
     center_txt = data.frame.center.name
-    if "Barycenter" in center_txt:
+    if re.search(r"Barycenter|L\d", center_txt):
         center_txt = " ".join(re.findall("[A-Z][^A-Z]*", center_txt))
 
     center = ET.SubElement(metadata, "CENTER_NAME")
